@@ -366,6 +366,7 @@ pub fn main(o: &Opts) -> i32 {
         Tier::Thorough => program_space(2, 1),
     };
     progs.extend(size_family(5).into_iter().map(|x| x.3));
+    progs.extend(extra_programs());
     rep.bounds = json!({"fixtures_per_curve": fixture_programs().len(), "fixture_programs": fixture_programs().iter().map(|p| p.name()).collect::<Vec<_>>(),
         "fresh_schedule_programs": progs.len(), "generator_digests": "4 parties x prefixes up to 1024 (quick) / 4096 (thorough), Pedersen bases"});
     rep.curves = CURVES.iter().map(|s| s.to_string()).collect();
